@@ -94,11 +94,29 @@ def evaluate(ctx, specs, rng, profiles, want_brute, out, kind):
             cand = [u for u, c in enumerate(uc) if U.n_labelings(ex, c) * len(ex["bins"]) <= MAX_LABELINGS]
             brute = cand[: want_brute]
         root = lf.get_param_value("root")
+        nodes = None
+        if kind == "corr":
+            # the implementation's compressed likelihood tree: every node's index and unique child-index tuples
+            lht = lf.get_param_value("lht")
+            nodes = {}
+            for e, name in [(-1, "root")] + list(enumerate(ex["edges"])):
+                nd = lht if name == "root" else lht.get_edge(name)
+                uq = nd.uniq
+                nodes[e] = dict(index=[int(i) for i in nd.index],
+                                uniq=None if name in ex["tips"] else [[int(x) for x in row] for row in uq[:-1]],
+                                nuniq=len(uq) - 1)
         built.append(dict(spec=spec, lnl=lnl, fl=fl, ex=ex, brute=brute, root_index=[int(i) for i in root.index],
-                          root_counts=[int(c) for c in root.counts]))
+                          root_counts=[int(c) for c in root.counts], nodes=nodes))
         reqs.append(U.lean_request(ex, brute))
+        if kind == "corr":
+            reqs.append(("clf", U.lean_request(ex, [])[1]))
         del lf
     replies = ctx.driver.batch(reqs) if reqs else []
+    if kind == "corr":
+        creplies = replies[1::2]
+        replies = replies[0::2]
+        for b, cres in zip(built, creplies):
+            _compare_compressed(b, cres, out)
     for b, res in zip(built, replies):
         spec, ex = b["spec"], b["ex"]
         feat = _features(spec, ex)
@@ -186,6 +204,27 @@ def _check_lengths(lf, spec, out):
     walk(spec["tree"])
 
 
+def _compare_compressed(b, cres, out):
+    """Model/PruneCompressed.lean (hierarchical de-duplication, products through index arrays) vs the
+    implementation's likelihood tree: every node's index / uniq, and the full-length likelihoods"""
+    spec = b["spec"]
+    out["evaluations"] += 1
+    if "error" in cres:
+        add_failure(out, "corr", "driver error (clf)", _slim(spec), "reply", cres["error"], confirmed=False)
+        return
+    for nd in cres["nodes"]:
+        real = b["nodes"][nd["e"]]
+        bump(out, "lht_nodes_compared")
+        if nd["index"] != real["index"] or len(nd["uniq"]) != real["nuniq"] or (real["uniq"] is not None and nd["uniq"] != real["uniq"]):
+            add_failure(out, "corr", "likelihood-tree node index/uniq differs from compressed model",
+                        dict(_slim(spec), node=nd["e"]), dict(index=nd["index"], uniq=nd["uniq"]), real, confirmed=False)
+            return
+    full = [unrat(x) for x in cres["full"]]
+    if len(full) != len(b["fl"]) or any(not U.close(float(x), f, REL_LH) for x, f in zip(b["fl"], full)):
+        add_failure(out, "corr", "full-length likelihoods differ from compressed model", _slim(spec),
+                    [float(f) for f in full[:5]], [float(x) for x in b["fl"][:5]], confirmed=False)
+
+
 def _model_plan(ctx, rng, n_nuc, n_codon, n_prot, n_dinuc):
     kinds = U.model_kinds()
     nuc = [m for m, k in kinds.items() if k == "nucleotide"]
@@ -245,9 +284,9 @@ def correspondence(ctx):
     U.BIG_BINS = ctx.thorough
     _indexed_tie(ctx, out, rng)
     if ctx.thorough:
-        plan = _model_plan(ctx, rng, 150, 20, 10, 6)
+        plan = _model_plan(ctx, rng, 500, 40, 20, 10)
     else:
-        plan = _model_plan(ctx, rng, 30, 2, 1, 1)
+        plan = _model_plan(ctx, rng, 40, 3, 2, 1)
     specs = []
     for name in plan:
         specs.append(U.rand_problem(rng, name, unary=rng.random() < 0.15))
@@ -341,7 +380,7 @@ def spec_check(ctx, budget):
     codon = [m for m, k in kinds.items() if k == "codon"]
     prot = [m for m, k in kinds.items() if k == "protein"]
     specs = []
-    for i in range(20 * budget):
+    for i in range(25 * budget):
         specs.append(U.rand_problem(rng, nuc[(i + ctx.seed) % len(nuc)], ntips=rng.randint(3, 6), unary=rng.random() < 0.15))
     n_big = max(1, budget // 2)
     for i in range(n_big):
